@@ -104,7 +104,7 @@ CLAIMS = {
        "(jwe_enc_applied_is_recorded); ECDSA names bind the curve on both sides (ES256=P-256 ... after fix 8c50062); zip "
        "is honoured from the protected header only, for encryption and decryption. Inference: the model's four suggestion "
        "functions (sign.sug, wrap.alg, encr.sug, wrap.enc) equal the library's hooks on a grid of 140 probe keys x 21 "
-       "algorithms REGENERATED FROM THE BUILT CODE ON EVERY RUN and re-proved by kernel evaluation (sug_*_is_code). "
+       "algorithms REGENERATED FROM THE BUILT CODE ON EVERY RUN and re-proved by kernel evaluation (sug_*_is_code); likewise the header merge itself on 1416 regenerated rows (model_is_code_on_grid). "
        "Differential run: all presence patterns x forms x malformed headers; producing calls with conflicting enc/alg/zip "
        "across protected/shared/per-recipient headers and the key, inference for every key type, size, curve and password "
        "length class; every produced object is checked for the shape (iv, tag, ciphertext, signature length) its own merged "
